@@ -312,6 +312,8 @@ class Composition(Loggable):
                 )
             return comp
 
+        # nothing to update upstream of this pull-based component: leave the active chain
+        del chain[comp]
         return None
 
     def _collect_adapters(self):
